@@ -25,7 +25,8 @@ func (m PropagateMatchersOptimizer) Optimize(expr parser.Expr) parser.Expr {
 		}
 
 		// TODO(fpetkovski): Investigate support for vector matching on a subset of labels.
-		if binOp.VectorMatching != nil && len(binOp.VectorMatching.MatchingLabels) > 0 {
+		// An empty on() list matches on no label at all, so it is a subset as well.
+		if binOp.VectorMatching != nil && (binOp.VectorMatching.On || len(binOp.VectorMatching.MatchingLabels) > 0) {
 			return
 		}
 
